@@ -28,7 +28,24 @@ func minimise(t *testing.T) {
 		os.Exit(2)
 	}
 	outPath := os.Getenv("VERIF_OUT")
+	// A shrunk program has other calls in it, so identities that name the calls involved change
+	// while shrinking: candidates are matched by violation class and subject (identity up to the
+	// second ':'), races and panics by their full identity.
 	target := rf.Violation.Identity
+	match := func(vs []Violation) (Violation, bool) {
+		for _, v := range vs {
+			if v.Class != rf.Violation.Class {
+				continue
+			}
+			if v.Identity == target {
+				return v, true
+			}
+			if v.Class != "race" && v.Class != "panic" && idGroup(v.Identity) == idGroup(target) {
+				return v, true
+			}
+		}
+		return Violation{}, false
+	}
 	budget := int(envInt("VERIF_MIN_BUDGET", 300))
 	execs := 0
 
@@ -43,7 +60,7 @@ func minimise(t *testing.T) {
 	}
 	// 0. the original must reproduce under strict replay
 	best := run(work, rf.Seed, orEmpty(rf.Decisions))
-	if !hasIdentity(best.Violations, target) {
+	if _, ok := match(best.Violations); !ok {
 		fmt.Printf("minimise: original does not reproduce (end=%s %s)\n", best.End, best.EndDetail)
 		writeJSON(outPath, rf) // leave the original; the driver's replay step will flag it
 		return
@@ -69,7 +86,7 @@ func minimise(t *testing.T) {
 		for j := 0; j < k && execs < budget; j++ {
 			seed := simrt.SplitMix64(rf.Seed ^ uint64(execs)*0x9e3779b97f4a7c15)
 			out := run(ws.WithSim(policies[j%len(policies)]), seed, nil)
-			if hasIdentity(out.Violations, target) {
+			if _, ok := match(out.Violations); ok {
 				return out
 			}
 		}
@@ -97,18 +114,13 @@ func minimise(t *testing.T) {
 			q := cur.Sim()
 			q.Policy, q.PreemptP = simrt.PolSticky, []float64{0.02, 0.05, 0.15}[j%3]
 			out := run(cur.(shrinker).WithSim(q), seed, nil)
-			if hasIdentity(out.Violations, target) && (out.Stats.Switches < best.Stats.Switches ||
+			if _, ok := match(out.Violations); ok && (out.Stats.Switches < best.Stats.Switches ||
 				(out.Stats.Switches == best.Stats.Switches && len(out.Decisions) < len(best.Decisions))) {
 				best = out
 			}
 		}
 	}
-	var v Violation
-	for _, x := range best.Violations {
-		if x.Identity == target {
-			v = x
-		}
-	}
+	v, _ := match(best.Violations)
 	m := toReplay(best, v)
 	m.Index = rf.Index
 	m.Note = fmt.Sprintf("minimised from run seed %d (index %d) in %d re-executions; original: %d decisions, minimised: %d decisions, %d preemptions",
@@ -118,4 +130,17 @@ func minimise(t *testing.T) {
 		os.Exit(2)
 	}
 	fmt.Println("minimise:", m.Note)
+}
+
+func idGroup(id string) string {
+	n := 0
+	for i := 0; i < len(id); i++ {
+		if id[i] == ':' {
+			n++
+			if n == 2 {
+				return id[:i]
+			}
+		}
+	}
+	return id
 }
